@@ -867,6 +867,7 @@ impl<'a> GeneratorState<'a> {
                         self.dummy()
                     };
                     let tmp_in_use = self.tmp_in_use;
+                    let mut subscript_recomputed = false;
                     let sub_output = match **sub {
                         Expr::Nothing => ExprType::Nothing,
                         Expr::Identifier(_, _) | Expr::Integer(_) => {
@@ -875,6 +876,14 @@ impl<'a> GeneratorState<'a> {
                         _ => {
                             if high_byte || second_time {
                                 match self.sub_output.take() {
+                                    // A subscript that was computed in the accumulator has gone to
+                                    // Y since: it is computed again (without its side effects)
+                                    // (the carry of the low byte pass must survive the computation)
+                                    Some(ExprType::A(_)) => {
+                                        self.sasm(PHP)?;
+                                        subscript_recomputed = true;
+                                        self.generate_expr(sub, pos, false, true)?
+                                    }
                                     Some(e) => e,
                                     None => {
                                         return Err(self.compiler_state.syntax_error(
@@ -1011,6 +1020,13 @@ impl<'a> GeneratorState<'a> {
                                 }
                                 self.asm_save_y(dummy_pos);
                                 self.asm(LDY, &sub_output, pos, false)?;
+                                if let ExprType::A(_) = sub_output {
+                                    // The subscript is in Y now: the accumulator is free again
+                                    self.acc_in_use = false;
+                                }
+                                if subscript_recomputed {
+                                    self.sasm(PLP)?;
+                                }
                                 // LDY has changed N and Z
                                 self.flags = FlagsState::Unknown;
                                 self.saved_y = true;
